@@ -1,5 +1,5 @@
 // C12 correspondence suite: ixkey.Spec.Key/Compare, Encode, Decode, HasPrefix,
-// SplitPrefixSuffix, JoinPrefixSuffix against the Lean model Gsu.Model.Ixkey,
+// SplitPrefixSuffix, JoinPrefixSuffix, Decode1, TruncFunc against the Lean model Gsu.Model.Ixkey,
 // plus the direct oracles of the property on the implementation.
 package main
 
@@ -184,9 +184,59 @@ func main() {
 				}
 			}
 		}
+		// Decode1 and TruncFunc on UNTRIMMED keys (TruncFunc's contract: "comp may not be
+		// missing empty trailing fields"); spec1 = the loop's Fields without Fields2
+		{
+			fvals := make([]string, nf)
+			for j, f := range fields {
+				fvals[j] = rec1[f]
+			}
+			uk := untrimmedKey(fvals)
+			if nf > 1 {
+				di := r.Intn(nf + 2)
+				d1 := ixkey.Decode1(uk, di)
+				t.Q(fmt.Sprintf("decode1 %s %d", lib.X(uk), di), lib.X(d1))
+				want := ""
+				if di < nf {
+					want = fvals[di]
+				}
+				if d1 != want {
+					t.Fail("decode1", fmt.Sprintf("fields %q key %q i=%d got %q", fvals, uk, di, d1))
+				}
+				t.Count("decode1")
+				// also on the trimmed key the real Spec.Key built (replay only)
+				d1k := ixkey.Decode1(k1, di)
+				t.Q(fmt.Sprintf("decode1 %s %d", lib.X(k1), di), lib.X(d1k))
+			}
+			m := 1 + r.Intn(nf)
+			s1 := ixkey.Spec{Fields: fields}
+			s2 := ixkey.Spec{Fields: fields[:m]}
+			tk := ixkey.TruncFunc(s1, s2)(uk)
+			t.Q(fmt.Sprintf("truncfn %d %d %s %s %s", nf, m, lib.B(s1.Encodes()), lib.B(s2.Encodes()), lib.X(uk)), lib.X(tk))
+			if wantk := untrimmedKey(fvals[:m]); tk != wantk {
+				t.Fail("truncfn", fmt.Sprintf("fields %q m=%d key %q got %q want %q", fvals, m, uk, tk, wantk))
+			}
+			t.Count(fmt.Sprintf("truncfn.%d->%d", nf, m))
+		}
 		e := genField(r) + genField(r)
 		t.Q("enc "+lib.X(e), lib.X(ixkey.Encode(e)))
 	}
+}
+
+// untrimmedKey is the composite key of vals with every field present
+// (a single field is stored raw, as Spec.Key does when !Encodes())
+func untrimmedKey(vals []string) string {
+	if len(vals) == 1 {
+		return vals[0]
+	}
+	var sb strings.Builder
+	for i, v := range vals {
+		if i > 0 {
+			sb.WriteString(ixkey.Sep)
+		}
+		sb.WriteString(ixkey.Encode(v))
+	}
+	return sb.String()
 }
 
 func trim(v []string) []string {
